@@ -179,31 +179,54 @@ def print_assumptions(props_file, timeout=600):
 # --------------------------------------------------------------------------
 # cases.v evaluation (the Coq kernel's vm_compute runs the model)
 
+def _private(name):
+    """On-disk name of a cases file: private to this process, so that overlapping runs of checks never share a file."""
+    suf = "_p%d" % os.getpid()
+    return name if name.endswith(suf) else name + suf
+
+
+def _remove_case(n):
+    for ext in (".v", ".vo", ".glob", ".vos", ".vok"):
+        try:
+            os.remove(os.path.join(COQ, "Cases", n + ext))
+        except OSError:
+            pass
+    try:
+        os.remove(os.path.join(COQ, "Cases", "." + n + ".aux"))
+    except OSError:
+        pass
+
+
 def run_cases(name, body, timeout=600):
-    """Write coq/Cases/<name>.v with `body`, compile it, return (ok, stdout)."""
+    """Write coq/Cases/<name>_p<pid>.v with `body`, compile it, return (ok, stdout); the files are removed afterwards."""
     d = os.path.join(COQ, "Cases")
     os.makedirs(d, exist_ok=True)
-    path = os.path.join(d, name + ".v")
+    n = _private(name)
+    path = os.path.join(d, n + ".v")
     with open(path, "w") as fh:
         fh.write(body)
-    rc, out = sh("ulimit -s unlimited 2>/dev/null; timeout %d coqc -Q . GV Cases/%s.v" % (timeout, name),
+    rc, out = sh("ulimit -s unlimited 2>/dev/null; timeout %d coqc -Q . GV Cases/%s.v" % (timeout, n),
                  cwd=COQ, timeout=timeout + 30)
+    _remove_case(n)
     return rc == 0, out
 
 
 def run_cases_parallel(named_bodies, timeout=900):
-    """named_bodies: list of (name, body). Compiles them with xargs -P. Returns {name: (ok, out)}."""
+    """named_bodies: list of (name, body). Compiles them concurrently. Returns {name: (ok, out)} (keys are the caller's
+    names; on disk every file carries the process id and is removed afterwards)."""
     d = os.path.join(COQ, "Cases")
     os.makedirs(d, exist_ok=True)
+    disk = {n: _private(n) for n, _ in named_bodies}
     for n, b in named_bodies:
-        with open(os.path.join(d, n + ".v"), "w") as fh:
+        with open(os.path.join(d, disk[n] + ".v"), "w") as fh:
             fh.write(b)
     import concurrent.futures as cf
     res = {}
 
     def one(n):
-        rc, out = sh("ulimit -s unlimited 2>/dev/null; timeout %d coqc -Q . GV Cases/%s.v" % (timeout, n),
+        rc, out = sh("ulimit -s unlimited 2>/dev/null; timeout %d coqc -Q . GV Cases/%s.v" % (timeout, disk[n]),
                      cwd=COQ, timeout=timeout + 30)
+        _remove_case(disk[n])
         return n, (rc == 0, out)
     with cf.ThreadPoolExecutor(max_workers=NCPU) as ex:
         for n, r in ex.map(one, [n for n, _ in named_bodies]):
